@@ -21,8 +21,6 @@ theorem isLive_iff (st : State) (i : Inst) : st.isLive i = true ↔ i.idx ∈ st
 
 /-! ### the state operations -/
 
-theorem initAttrs_snd_irrelevant : True := trivial
-
 theorem newInst_wf {C : Ctx} {cls : String} {st st' : State} {i : Inst}
     (h : newInst C cls st = .ok (i, st')) (wf : WF st) : WF st' := by
   unfold newInst at h
